@@ -147,6 +147,20 @@ MUTANTS = [
       "                    self.log(\"testv failed (empty): [%d] %r\" % (sharenum, testv))\n                    return False\n"
       "            else:\n                if not shares[sharenum].check_testv(testv):\n"
       "                    self.log(\"testv failed: [%d]: %r\" % (sharenum, testv))\n                    return False\n", None),
+    M("benign-server-early-refusal", SRV,
+      "        if testv_is_good:\n            # now apply the write vectors\n",
+      "        if not testv_is_good:\n            self.add_latency(\"writev\", self._clock.seconds() - start)\n"
+      "            return (False, read_data)\n        if True:\n            # now apply the write vectors\n", None),
+    M("benign-server-verdict-through-bool", SRV,
+      "        if testv_is_good:\n            # now apply the write vectors\n",
+      "        accepted = bool(testv_is_good)\n        if accepted:\n            # now apply the write vectors\n", None),
+    M("benign-server-verdict-negated-local", SRV,
+      "        if testv_is_good:\n            # now apply the write vectors\n",
+      "        rejected = not testv_is_good\n        if not rejected:\n            # now apply the write vectors\n", None),
+    M("server-early-refusal-reports-success", SRV,
+      "        if testv_is_good:\n            # now apply the write vectors\n",
+      "        if not testv_is_good:\n            self.add_latency(\"writev\", self._clock.seconds() - start)\n"
+      "            return (True, read_data)\n        if True:\n            # now apply the write vectors\n", "C12.9"),
     # ---- C12.10 the answer handler cannot die before marking
     M("answer-log-parent-unbound", PUB,
       "        lp = self.log(\"_got_write_answer from %r, share %d\" %", "        self.log(\"_got_write_answer from %r, share %d\" %",
